@@ -12,7 +12,7 @@ PROFILE = gen.Profile(
 )
 PROFILE_ASYNC = gen.Profile(**{**PROFILE.__dict__, "p_coro": 0.5, "drivers": ("facade", "loop"), "p_rtc_off": 0.0})
 
-STYLES = ["send", "method", "events", "allowed", "bound"]
+STYLES = ["send", "method", "events", "allowed", "bound", "foreign"]
 STYLES_MODEL = STYLES + ["modelbound", "modelbound"]     # the triggers bound onto the model (`bind_events_to(model)`)
 
 
